@@ -10,46 +10,41 @@ from props.c09 import campaign_impl_only
 
 SPEC = {
     "lean_modules": ["Honeycomb.Props.C10"],
-    "required_theorems": [
-        "C10_validated_load_wf", "C10_validated_load", "C10_witnesses_rejected",
-        "C10_fails_out_of_range", "C10_fails_not_inverse", "C10_fails_asymmetric_beta2",
-        "C10_fails_null_column_ignored", "C10_fails_unused_linked_panics", "C10_fails_unused_repeated_panics",
-        "C10_fails_unused_out_of_range_panics", "C10_fails_vertex_out_of_range_panics",
-        "C10_fails_vertex_on_missing_dart",
-    ],
+    "required_theorems": ["C10_build_wf_or_error", "C10_load_wf_or_error", "C10_load_never_panics"],
     "trusted_base": [
         "Lean 4.33 kernel; axioms propext, Classical.choice, Quot.sound only",
-        "hand-written token-level model Honeycomb/Model/CmapText.lean (parseFile, build, load) tied to /repo by the "
-        "hcmodel/hcimpl correspondence run (`loadtext`, `snap`, `wf`)",
+        "hand-written token-level model Honeycomb/Model/CmapText.lean (parseFile, build, load — mirroring the validating "
+        "loader of commit 7170072) tied to /repo by the hcmodel/hcimpl correspondence run (`loadtext`, `snap`, `ser`, `wf`)",
         "Rust harness /verif/harness/hcimpl/src/cmapio.rs (temp file + CMapBuilder::from_cmap_file + build under catch_unwind) "
-        "and tools/*.py; the oracle evaluates WF2 and the agreement with the text in Python (tools/cmapgen.py) on the "
-        "implementation's snapshot",
+        "and tools/*.py; the oracle evaluates WF2 and the agreement with the text in Python (tools/cmapgen.py, an independent "
+        "reading of the format that also predicts the exact reply) on the implementation's snapshot",
     ],
     "assumptions": [
-        "token level: texts are lists of lines of printable-ASCII tokens separated by single blanks; `|` cannot be a token",
-        "`accepted section layout` = CMapFile::try_from returns Ok (model: parseFile f = .ok _); through the public "
-        "from_cmap_file every rejected layout / META line is a documented panic (reported as `layout …`, outside the quantifier)",
+        "token level: texts are lists of lines of printable-ASCII tokens separated by single blanks; `|` cannot be a token; "
+        "the tokenisation of raw text (characters -> token lines) is outside the model",
+        "`accepted section layout` = CMapFile::try_from returns Ok (model: parseFile f = .ok cf); through the public "
+        "from_cmap_file every rejected layout / META line is a documented panic (reported as `layout …`, outside the "
+        "quantifier; in the model `load` returns them as errors)",
         "coordinate tokens: the model reads Rust's finite decimal grammar exactly (exponents up to 30) and the harness "
         "notation p/q; inf/infinity/nan (valid for Rust, not representable in the model) only occur in the "
-        "implementation-only stream; dart counts are kept below 5000 (the loader allocates n_darts before any check: a huge "
-        "count exhausts memory — not exercised)",
-        "the property is FALSE of the unchanged tree (D5a–D5g in known_findings.json); the proved statement is the soundness "
-        "of the validator `validFile` a fixed loader would run (C10_validated_load_wf) plus one negation witness per class",
+        "implementation-only stream; the rounding of decimals to f64 is not modelled (generators use exactly representable values)",
+        "dart counts are kept below 5000 in the streams: the loader allocates n_darts before any consistency check, a huge "
+        "count in META exhausts memory (not exercised, not covered by the theorem, which has no memory model)",
+        "maps have fewer than 2^32 darts (u32 ids; no truncation of `d as DartIdType` is modelled)",
     ],
     "rule": "mutations of valid serializations of random WF maps (1..6 darts): out-of-range images, non-inverse b0/b1, "
-            "asymmetric / fixed-point b2, non-null or non-numeric null-dart column, linked / repeated / out-of-range unused ids, "
-            "vertex ids >= n_darts, vertex lines for the null dart or removed darts, non-numeric tokens, missing/extra columns, "
+            "asymmetric / fixed-point b2, non-null or non-numeric null-dart column, linked / repeated / out-of-range / null unused "
+            "ids, vertex ids >= n_darts, vertex lines for the null dart or removed darts, non-numeric tokens, missing/extra columns, "
             "section edits (duplicated / missing / renamed / reordered sections, comments, header spellings, multi-line meta and "
-            "unused), valid numeric spellings (+, leading zeros, decimals, exponents), pairs of mutations, and random texts with a "
-            "valid layout; oracle: `err …` or (`ok`, WF2 of the snapshot evaluated in Python and by `wf`, snapshot equal to the "
-            "map the text denotes).  distinct_nontrivial = distinct implementation transcripts.",
+            "unused), valid numeric spellings (+, leading zeros, decimals, exponents), pairs of mutations, random texts with a "
+            "valid layout, and a token soup around the section syntax; oracle: the reply is never `panic`, it equals the reply "
+            "predicted by the independent Python reading (exact BuilderError variant and message code), and on `ok` the snapshot is "
+            "WF2 (Python and `wf`) and equal to the map the text denotes (n, every image, flags, vertices: last line wins). "
+            "distinct_nontrivial = distinct implementation transcripts.",
     "not_proved": [
-        "C10 as stated (for every accepted layout: load f = err ∨ (ok m ∧ WF m ∧ agrees)) is FALSE of the current code: "
-        "9 proved negation witnesses C10_fails_* (classes D5a–D5g)",
-        "under validFile the agreement of the stored vertex VALUES with the text (last line wins on a repeated id) is not "
-        "proved; C10_validated_load_wf proves: no panic, no error, WF2, n_darts, every β image and every removal flag equal "
-        "to the text; vertex values are checked by the oracle on the implementation",
-        "tokenisation of raw text (characters -> token lines) is outside the model",
+        "tokenisation of raw text and the float parsing of coordinates (character level) are outside the model",
+        "the first stage through the public API: from_cmap_file unwraps the section parser's error (documented panic); the "
+        "theorem is about build() after an accepted layout, as the property is",
     ],
 }
 
@@ -305,23 +300,30 @@ def m_valid_spelling(rng, t, info):
     return True
 
 
+def m_vertex_repeated(rng, t, info):
+    """the same vertex id on two lines is accepted: the last line wins"""
+    if not t.verts:
+        return False
+    v = t.verts[rng.randrange(len(t.verts))]
+    t.verts.insert(rng.randint(0, len(t.verts)), [v[0], coord(rng), coord(rng)])
+    return True
+
+
 MUTATIONS = {
     "beta-out-of-range": m_range, "beta01-not-inverse": m_inverse, "beta2-asymmetric": m_beta2,
     "null-column": m_nullcol, "unused-linked": m_unused_linked, "unused-repeated": m_unused_repeated,
     "unused-out-of-range": m_unused_oor, "vertex-id-out-of-range": m_vertex_oor,
     "vertex-on-missing-dart": m_vertex_missing, "non-numeric": m_nonnumeric, "columns": m_columns,
-    "sections": m_sections, "valid-spelling": m_valid_spelling,
+    "sections": m_sections, "valid-spelling": m_valid_spelling, "vertex-repeated": m_vertex_repeated,
 }
 
 
 def make_case(cid, rng, lines, mut):
     ana = cg.analyse(lines)
     mask = rng.choice([0, 0, 7, 23])
-    # `ser` is there for the correspondence only (serialize of an ill-formed map may panic: same on both sides)
-    cl = ["new 2 0 0", cg.loadtext_line(mask, lines), "snap", "ser"]
-    if "beta-out-of-range" not in ana["defects"]:
-        cl.append("wf")   # the two drivers still print the second `wf` flag differently on some out-of-range maps
-    sig = f"mut={mut};kind={ana['kind']};defects={','.join(ana['defects'])}"
+    # `ser` is there for the correspondence only
+    cl = ["new 2 0 0", cg.loadtext_line(mask, lines), "snap", "ser", "wf"]
+    sig = f"mut={mut};expect={ana['kind']} {ana['detail']}".strip()
     return Case(cid, cl, oracle="c10", meta={"sig": sig, "ana": ana})
 
 
@@ -420,7 +422,7 @@ def special_coord_cases(count, rng):
             v[rng.choice([1, 2])] = rng.choice(toks)
         lines = t.lines()
         cases.append(Case(f"sc{k}", ["new 2 0 0", cg.loadtext_line(0, lines), "wf"], oracle="special",
-                          meta={"sig": "mut=special-coord;kind=read;defects="}))
+                          meta={"sig": "mut=special-coord;expect=ok"}))
     return cases
 
 
@@ -449,22 +451,14 @@ def oracle_c10(case, li):
         return None
     ana = case.meta["ana"]
     rep = li[1]
-    if rep.startswith("layout "):
-        if ana["kind"] != "layout" or rep != "layout " + ana["detail"]:
-            return f"[analysis-mismatch] implementation says {rep!r}, the Python reading of the text says {ana['kind']} {ana['detail']}"
-        return None       # outside the quantifier of C10
-    if ana["kind"] == "layout":
-        return f"[analysis-mismatch] the Python reading rejects the layout ({ana['detail']}), implementation says {rep!r}"
-    if rep.startswith("err "):
-        if ana["kind"] == "reject" and not ana["defects"] and rep != "err " + ana["detail"]:
-            return f"[analysis-mismatch] implementation says {rep!r}, expected err {ana['detail']}"
-        return None
     if rep == "panic":
-        return "[panic] the loader panics (text: defects " + ",".join(ana["defects"]) + ")"
+        return f"[panic] the loader panics (the Python reading expects {ana['kind']} {ana['detail']})"
+    want = {"layout": "layout " + str(ana["detail"]), "err": "err " + str(ana["detail"]), "ok": "ok"}[ana["kind"]]
+    if rep != want:
+        tag = "accepted-invalid" if rep == "ok" else "reply-mismatch"
+        return f"[{tag}] implementation says {rep!r}, the Python reading of the text expects {want!r}"
     if rep != "ok":
-        return f"[analysis-mismatch] unexpected reply {rep!r}"
-    if ana["kind"] != "read":
-        return f"[accepted-unreadable] the loader accepts a text the Python reading rejects with {ana['detail']}"
+        return None       # layout: outside the quantifier of C10; err: the advertised failure channel
     s = cg.parse_snap(li[2])
     if s is None:
         return f"[driver] no snapshot after ok: {li[2][:100]!r}"
@@ -477,26 +471,16 @@ def oracle_c10(case, li):
     if s["n"] != ex["n"]:
         return f"[disagree:n] n_darts {s['n']} for a text announcing {ex['n']}"
     for i in range(3):
-        for d in range(1, ex["n"]):
+        for d in range(0, ex["n"]):
             if s[f"b{i}"][d] != ex["rows"][i][d]:
                 return f"[disagree:beta] b{i}({d}) = {s[f'b{i}'][d]}, text says {ex['rows'][i][d]}"
     if s["u"] != ex["unused"]:
         return f"[disagree:unused] flags {s['u']}, text says {ex['unused']}"
     for d in range(ex["n"]):
         got = cg.snap_vertex(s["a0"][d])
-        want = ex["verts"].get(d)
-        if got != want:
-            return f"[disagree:vertex] vertex {d} = {got}, text says {want}"
-    for i in range(3):
-        if ex["rows"][i][0] != 0:
-            return (f"[ignored:null-column] the text gives the null dart the image b{i}(0) = "
-                    f"{ex['rows'][i][0] if ex['rows'][i][0] is not None else 'non-numeric'}; the loader never reads that "
-                    f"column and returns a map with b{i}(0) = 0")
-    for d, v in ex["verts"].items():
-        if d == 0 or ex["unused"][d]:
-            return f"[accepted:vertex-on-missing-dart] a vertex is stored for dart {d} (null or removed)"
-    if ana["defects"]:
-        return f"[analysis-mismatch] defects {ana['defects']} but nothing observed"
+        want_v = ex["verts"].get(d)
+        if got != want_v:
+            return f"[disagree:vertex] vertex {d} = {got}, text says {want_v}"
     return None
 
 
@@ -537,17 +521,5 @@ def run(tier, seed):
 
 
 def matches(known, v):
-    """a known finding matches an oracle failure (never a model/implementation disagreement) when the
-    text carries one of the finding's defect classes (case.meta['sig'], computed from the text by
-    cmapgen.analyse) AND the observed failure is the finding's"""
-    if v.get("kind") != "oracle":
-        return False
-    m = known.get("matcher", {})
-    sig = v.get("sig", "")
-    mm = re.search(r"defects=([^;]*)", sig)
-    defects = [d for d in (mm.group(1).split(",") if mm else []) if d]
-    fail = (v.get("replay", {}) or {}).get("oracle_failure") or ""
-    t = re.match(r"\[([^\]]+)\]", fail)
-    if not t:
-        return False
-    return t.group(1) == m.get("observed") and any(d in defects for d in m.get("defects", []))
+    """D5a–D5g were repaired in /repo (7170072); nothing is expected to fail any more"""
+    return False
